@@ -71,6 +71,8 @@ def cl_suite(profile, n_quick, n_thorough, variants_quick=("single", "multi"), v
         cdir = os.path.join(vlib.CORPUS, ctx.prop)
         if os.path.isdir(cdir):
             for f in sorted(os.listdir(cdir)):
+                if f.startswith("q_"):
+                    continue
                 txt = open(os.path.join(cdir, f)).read()
                 scripts.append(("corpus_" + f.replace(".", "_"), txt.replace("--- ", "--- corpus_" + f.replace(".", "_") + " #", 1) if False else txt))
         for i in range(n):
